@@ -5,6 +5,9 @@ go 1.24
 require (
 	github.com/anishathalye/porcupine v1.3.0
 	github.com/flanglet/kanzi-go/v2 v2.0.0
+	kanziref/v2 v2.0.0
 )
 
 replace github.com/flanglet/kanzi-go/v2 => /repo/v2
+
+replace kanziref/v2 => ../ref/v2
